@@ -54,6 +54,9 @@ func runKillCase(c *killCase) (impl, pred string) {
 		kc.AfterServe = "hang"
 	case "neverstarted":
 		kc.PreServe = "printhang:" + hxs("not a handshake\n")
+	case "neverstarted2":
+		// the rejected line is followed by more stdout output (a banner, a stray Println)
+		kc.PreServe = "printhang:" + hxs("not a handshake\nsecond line\nthird line\n")
 	}
 	extra := []string{"TMPDIR=" + base}
 	if c.beh == "fastlost" {
@@ -100,7 +103,7 @@ func runKillCase(c *killCase) (impl, pred string) {
 	}
 	client := plugin.NewClient(cfg)
 	var kit Kit
-	if c.beh == "neverstarted" {
+	if strings.HasPrefix(c.beh, "neverstarted") {
 		if _, err := client.Start(); err == nil {
 			return "setup-error", "FAIL:setup-start-succeeded"
 		}
@@ -142,6 +145,7 @@ func runKillCase(c *killCase) (impl, pred string) {
 	t0 := time.Now()
 	var hung bool
 	var pp interface{}
+	var earlyReturn atomic.Value
 	switch c.pattern {
 	case "single":
 		_, hung, pp = withTimeout(watchdog, func() error { client.Kill(); return nil })
@@ -153,15 +157,23 @@ func runKillCase(c *killCase) (impl, pred string) {
 			var perr atomic.Value
 			for i := 0; i < 4; i++ {
 				wg.Add(1)
-				go func() {
+				go func(i int) {
 					defer wg.Done()
 					defer func() {
 						if r := recover(); r != nil {
 							perr.Store(fmt.Sprint(r))
 						}
 					}()
+					// staggered, so that later calls begin while the first is inside its procedure
+					time.Sleep(time.Duration(i) * 120 * time.Millisecond)
 					client.Kill()
-				}()
+					// EVERY Kill that returns must find the process gone and reported as exited
+					if pid != 0 && pidAlive(pid) {
+						earlyReturn.Store(fmt.Sprintf("kill#%d-returned-while-plugin-alive", i))
+					} else if !client.Exited() {
+						earlyReturn.Store(fmt.Sprintf("kill#%d-returned-before-exited-was-set", i))
+					}
+				}(i)
 			}
 			wg.Wait()
 			if v := perr.Load(); v != nil {
@@ -195,6 +207,8 @@ func runKillCase(c *killCase) (impl, pred string) {
 		pred = "FAIL:kill-hung"
 	case pp != nil:
 		pred = "FAIL:kill-panicked"
+	case earlyReturn.Load() != nil:
+		pred = "FAIL:" + earlyReturn.Load().(string)
 	case !dead:
 		pred = "FAIL:process-alive-after-kill"
 	case !reaped:
@@ -228,7 +242,7 @@ func init() {
 			return
 		}
 		var cases, managed []*killCase
-		behs := []string{"fast", "fast500", "slow", "ignores", "frozen", "dead", "neverstarted"}
+		behs := []string{"fast", "fast500", "slow", "ignores", "frozen", "dead", "neverstarted", "neverstarted2"}
 		for _, proto := range []string{"netrpc", "grpc", "grpcmux"} {
 			for _, beh := range behs {
 				if beh == "frozen" && proto == "netrpc" && tier() != "thorough" {
